@@ -22,7 +22,7 @@ open Gallia Gallia.Proto Gallia.Doip Gallia.Framing Gallia.DoipSys
     cl <think_ms> read <tmo|->
     cl <think_ms> activate <atype> <tmo|->
     cl <think_ms> close
-    run                                "done=[t:want:res,..] q=[..] held=[..] closed=<0|1> client=<idle|waiting> out=[..] tr=<..> tie=<0|1>"
+    run                                "done=[t:want:res,..] q=[..] held=[..] closed=<0|1> client=<idle|waiting> out=[..] tr=<..> tie=<t|0> left=<n>"
     runv                               the same, preceded by the event list that was executed
 -/
 
@@ -83,7 +83,7 @@ structure Run where
   gws : List (Nat × GwEv)
   prog : List (Nat × COp)
   ops : List Op := []        -- executed so far (reversed)
-  tie : Bool := false
+  tie : Nat := 0             -- first instant at which a gateway event coincides with a client start / a timer
   last : Nat := 0            -- when the previous client call returned
 
 def Run.emit (c : Cfg) (y : Raw → Bool) (r : Run) (op : Op) : Run :=
@@ -127,7 +127,7 @@ def runScript (c : Cfg) (y : Raw → Bool) : Nat → Run → Run
     match optMin (optMin tg tc) td with
     | none => r
     | some t =>
-      let r := if tg.isSome && (tg == tc || tg == td) then { r with tie := true } else r
+      let r := if r.tie == 0 && tg.isSome && (tg == tc || tg == td) then { r with tie := tg.getD 0 } else r
       if now < t then runScript c y fuel (r.emit c y (.advance (t - now)))
       else if td.isSome && td == some t then runScript c y fuel (r.emit c y (.advance 0))
       else if tg == some t then
@@ -235,7 +235,7 @@ def step (d : DSt) (line : String) : DSt × String :=
         s!"q={showList (s.queue.map showFrame)} held={showList ((heldOf s.client).map showFrame)} " ++
         s!"closed={if s.closed then 1 else 0} client={if s.client == .idle then "idle" else "waiting"} " ++
         s!"out={showList (s.out.map fun o => s!"{o.1}:{hexOrDash o.2}")} tr={showTr s.tr} " ++
-        s!"tie={if r.tie then 1 else 0} left={r.gws.length + r.prog.length}"
+        s!"tie={r.tie} left={r.gws.length + r.prog.length}"
       ({ d with gws := [], prog := [] },
        if cmd == "runv" then s!"ops={showList (r.ops.reverse.map showOp)} " ++ line else line)
     else (d, "bad-op")
